@@ -1200,7 +1200,7 @@ def run(ctx):
 
 def stream_generated(ctx):
     t0 = time.time()
-    nprog = ctx.n(22, 260)
+    nprog = ctx.n(22, 160)
     cases, projects = make_projects(ctx, nprog)
     for fc in cases:
         set_all_positions(fc)
@@ -1225,7 +1225,7 @@ def stream_corpus(ctx, fp):
     t0 = time.time()
     files = corpus_files(ctx)
     changed = any(v.startswith('missing') for v in fp.values())
-    nfiles = ctx.n(8, 200)
+    nfiles = ctx.n(8, 70)
     ctx.rng.shuffle(files)
     ccases, skipped = [], 0
     for path in files:
@@ -1233,7 +1233,7 @@ def stream_corpus(ctx, fp):
             break
         try:
             src = open(path, encoding='utf8').read()
-            if len(src) > ctx.n(16000, 200000):
+            if len(src) > ctx.n(16000, 60000):
                 continue
             rel = os.path.relpath(path, common.REPO)
             dotted = rel[:-3].split(os.sep)
@@ -1243,7 +1243,7 @@ def stream_corpus(ctx, fp):
         except Unsupported:
             skipped += 1
             continue
-        fc.pos_lines, fc.pos_sel = [], token_positions(fc.ex, ctx.rng, ctx.n(260, 1500))
+        fc.pos_lines, fc.pos_sel = [], token_positions(fc.ex, ctx.rng, ctx.n(260, 900))
         fc.positions = list(fc.pos_sel)
         ccases.append(fc)
     ctx.stat('corpus_files', len(ccases))
